@@ -4,6 +4,7 @@ import (
 	"encoding/hex"
 	"fmt"
 	"math"
+	"strings"
 	"time"
 
 	"github.com/lyraproj/pcore/px"
@@ -71,8 +72,14 @@ var objTypeSrc = map[string]string{
 	// two required-less attributes with defaults; positional args may be trimmed
 	"My::Pt":   `Object[name => 'My::Pt', attributes => {x => Integer, y => {type => Integer, value => 0}, tag => {type => Any, value => undef}}]`,
 	"My::Wrap": `Object[name => 'My::Wrap', attributes => {v => Any, w => {type => Any, value => undef}}]`,
+	// an Object type with a type parameter: My::Par[3] is a type value of its own kind (an extension of My::Par)
+	"My::Par": `Object[name => 'My::Par', type_parameters => {n => Integer}, attributes => {x => Integer}]`,
 }
+
+// the object types that random instances and parameters are drawn from (My::Par is met through the type
+// expressions My::Par[n] only)
 var objTypeOrder = []string{"My::Pt", "My::Wrap"}
+var objTypeAll = []string{"My::Pt", "My::Wrap", "My::Par"}
 var aliasSrc = map[string]string{
 	"My::Ints": `type My::Ints = Array[Integer]`,
 	"My::Tree": `type My::Tree = Variant[Integer,Array[My::Tree]]`,
@@ -91,7 +98,7 @@ type typeEnv struct {
 func newTypeEnv(ctx px.Context, registered bool) *typeEnv {
 	env := &typeEnv{registered: registered, objTypes: map[string]px.Type{}, aliases: map[string]px.Type{}}
 	all := []px.Type{}
-	for _, n := range objTypeOrder {
+	for _, n := range objTypeAll {
 		t := ctx.ParseType(objTypeSrc[n])
 		env.objTypes[n] = t
 		all = append(all, t)
@@ -283,7 +290,7 @@ func (b *builder) buildPType(s *Spec) px.Value {
 // needsLoader: an Init type asks the loader for the constructor of its type as soon as it is used
 // (types/inittype.go:210-219), so it exists over registered types only
 func (s *Spec) needsLoader() bool {
-	if s.K == "ptype" && s.S == "Init" {
+	if s.K == "ptype" && s.S == "Init" || s.mentionsUserType() {
 		return true
 	}
 	for _, e := range s.E {
@@ -308,10 +315,19 @@ func (s *Spec) structOverUserType() bool {
 	return false
 }
 
+// mentionsUserType: a type expression that names a type of the catalogue (My::Par[3]); it is parsed in the
+// context of the scenario, so the loader must know the name
+func (s *Spec) mentionsUserType() bool {
+	return s.K == "type" && strings.Contains(s.S, "My::")
+}
+
 // hasUserTypes tells whether the spec needs the type catalogue (then both scenarios are run)
 func (s *Spec) hasUserTypes() bool {
 	switch s.K {
 	case "objtype", "alias", "obj":
+		return true
+	}
+	if s.mentionsUserType() {
 		return true
 	}
 	for _, e := range s.E {
